@@ -45,6 +45,9 @@ var c18Tmpls = []c18Tmpl{
 	{"(handler-bind ((a-err (lambda (c &rest x) (ignore-errors (handler-bind ((b-err (lambda (c &rest y) (error 'c-err 1)))) (error 'b-err 2))) (rethrow)))) (error 'a-err 3))", "call3:error"},
 	{"(handler-bind ((a-err (lambda (c &rest x) (ignore-errors (handler-bind ((b-err 42)) (error 'b-err 2))) (rethrow)))) (error 'a-err 3))", "call2:error"},
 	{"(handler-bind ((a-err (lambda (c &rest x) (handler-bind ((b-err (lambda (c &rest y) 'ok))) (error 'b-err 2)) (rethrow)))) (error 'a-err 3))", "call2:error"},
+	{"(defmacro mk (f) (list f 5)) (list 1 (mk car))", "call:mk"},
+	{"(defmacro mk2 (f x) (list f ''built x)) (progn (mk2 error 7))", "call:mk2"},
+	{"(defmacro tw (x) (quasiquote (progn (unquote x) (unquote x)))) (tw (car 5))", "call:car"},
 	{"(defun thrower () (error 'a-err 3)) (handler-bind ((a-err (lambda (c &rest x) (ignore-errors (car 5)) (rethrow)))) (thrower))", "call:error"},
 }
 
